@@ -239,13 +239,15 @@ def generate(seed, tier="quick", faults=True):
                     {"kind": "zero", "a": fault.random() * 0.7, "b": 1.0},
                     {"kind": "zero", "a": 0.0, "b": 1.0},
                     {"kind": "nopatch"},
+                    {"kind": "sector", "frac": fault.random()},
+                    {"kind": "sector", "frac": fault.random()},
                 ])
                 ops.append({"op": "damage", "spec": i, "how": how})
                 if gen.random() < 0.8:
                     ops.append({"op": "req", "spec": i})
                     ops.append({"op": "req", "spec": i})
     return {"engine": "cachesim", "property": PROP, "seed": seed, "tier": tier,
-            "faults": faults, "specs": specs, "spec_meta": meta, "cfgs": cfgs, "cfg_meta": cmeta, "ops": ops}
+            "faults": faults, "reuse_arrays": gen.random() < 0.5, "specs": specs, "spec_meta": meta, "cfgs": cfgs, "cfg_meta": cmeta, "ops": ops}
 
 
 # ----------------------------------------------------------------------------
@@ -440,7 +442,7 @@ class Run:
         spec = self.rec["specs"][i]
         skey = canon(spec)
         st, exp = self.expect(i)
-        args = S.build_args(spec)
+        args = S.build_args(spec, reuse=self.rec.get("reuse_arrays", False))
         meta = self.rec["spec_meta"][i] if i < len(self.rec.get("spec_meta", [])) else {}
         rel = "same" if skey in self.intact else (f"nb:{meta.get('kind')}" if meta.get("rel") == "neighbour" else "fresh")
         self.states.add(f"{self.abstract_state()}|req|{rel}")
@@ -625,6 +627,9 @@ class Run:
         elif how["kind"] == "zero":
             a, b = int(how["a"] * len(data)), int(how["b"] * len(data))
             new = data[:a] + b"\0" * (b - a) + data[b:]
+        elif how["kind"] == "sector":
+            a = (int(how["frac"] * len(data)) // 512) * 512
+            new = data[:a] + b"\0" * (min(len(data), a + 512) - a) + data[a + 512:]
         elif how["kind"] == "nopatch":
             # lose the second half of the file's bytes written by seek-back:
             # zip local headers keep their placeholder CRC/sizes
@@ -870,6 +875,18 @@ def _journal_variants(journal, entry_rel):
             nopatch.append(op)
         if len(nopatch) != len(prefix):
             yield (p, "no_seekback"), materialize({}, set(), nopatch)[0]
+    # power loss after the store completed: exactly one un-synced write never
+    # reached the disk (a hole of zeros inside an otherwise complete entry)
+    for w, op in enumerate(journal):
+        if op[0] == "WRITE":
+            yield (w, "lost_write"), materialize({}, set(), journal[:w] + journal[w + 1:])[0]
+    # ... or one 512-byte sector of the finished entry reads back as zeros
+    for rel, data in full_files.items():
+        for a in range(0, len(data), 512):
+            img = dict(full_files)
+            img[rel] = data[:a] + b"\0" * (min(len(data), a + 512) - a) + data[a + 512:]
+            if img[rel] != data:
+                yield (nops + 1 + a // 512, "lost_sector"), img
 
 
 def execute_enum_journal(job):
@@ -959,6 +976,10 @@ def simplify(rec):
                 c = copy.deepcopy(rec)
                 c["specs"][i][key] = copy.deepcopy(base[key])
                 yield c
+    if rec.get("reuse_arrays"):
+        c = copy.deepcopy(rec)
+        c["reuse_arrays"] = False
+        yield c
     # simpler base: smaller grid
     for key, val in (("ny", 8), ("nx", 8), ("nz", 4), ("prof", "const"), ("precision", "double"), ("analytic", False)):
         if base.get(key) != val and key not in ("nz",):
@@ -996,7 +1017,7 @@ def plan(tier, master_seed, runs=None):
         step = 640
         for lo in range(0, 40000, step):
             enum_jobs.append({"kind": "enum_trunc", "spec": spec, "lo": lo, "hi": lo + step})
-        for lo in range(0, 140, 10):
+        for lo in range(0, 200, 10):
             enum_jobs.append({"kind": "enum_journal", "spec": spec, "lo": lo, "hi": lo + 10})
     # enumeration first: it is the exhaustive part
     return {"jobs": enum_jobs + jobs, "determinism_slice": 12, "shrink_budget_s": 90}
